@@ -67,9 +67,9 @@ CHECKS = {
    note="Counter.most_common/values assumed; A-FP, A-REAL; parse/OMEN/savers trusted inside run_trainer; determinism only bounded"),
  'C07': dict(level='other', technique=TECH + "; character table by exhaustive enumeration; encoding frame on the AST",
    text="check_valid accepts only passwords that stay on one line (no TAB, C0, nor any code point at which splitlines/codecs break, set recomputed each run); writer format; "
-        "guesser reader returns every value unchanged, grouping equal probabilities (sorted file => strictly decreasing groups); every ruleset reader/writer names its encoding. "
+        "guesser reader returns every value unchanged, grouping equal probabilities (sorted file => strictly decreasing groups); the guesser's OMEN loader (_load_ngrams for IP.level and CP.level) returns every n-gram with only its line terminator removed, grouped by level and prefix in file order; every ruleset reader/writer names its encoding. "
         "Bounded: value-by-value round trip in utf-8 and cp1251 through guesser, scorer and OMEN loaders.",
-   note="A-CODEC; rstrip/split/float(repr) identities validated only by the bounded round trip; scorer and OMEN loaders not under contract"),
+   note="A-CODEC; rstrip/split/float(repr)/int identities validated only by the bounded round trip; the scorer's loaders and the EP / LN / config readers are not under contract"),
  'C19': dict(level='other', technique=TECH + "; string builtins uninterpreted; equivalence of textual forms by bounded stand-in",
    text="read_password: no exception escapes for any line content, only check_valid-accepted passwords are yielded, num_passwords advances by exactly the number yielded; "
         "run_trainer: three passes built from identical arguments, pass-1 N used everywhere. Bounded: $HEX[] / --prefixcount / junk-line forms train byte-identical rulesets.",
